@@ -725,18 +725,28 @@ def validate_unique_names(nodes):
     visit(nodes, True)
 
 
-def validate_values(nodes, constants):
+def validate_values(nodes, constants, strict=False):
     """ Enumerators and union discriminators are encoded as 32-bit unsigned integers. Requires cross referenced nodes. """
-    def check(what, owner, value):
+    def check(what, owner, value, low=0, high=0xFFFFFFFF, range_name="32-bit unsigned range"):
         try:
             number = to_int(value, constants)
-        except calc.ParseError:
+        except (calc.ParseError, TypeError, ZeroDivisionError, ValueError, OverflowError) as e:
+            if strict:
+                """ the value is pasted into the generated code: it has to be an expression prophyc itself can evaluate """
+                raise ModelError("%s '%s' of %s cannot be evaluated: %s" % (what, value, owner, e))
             return
-        if number is not None and not isinstance(number, six.string_types) and not 0 <= number <= 0xFFFFFFFF:
-            raise ModelError("%s '%s' of %s out of 32-bit unsigned range" % (what, value, owner))
+        if number is None or isinstance(number, six.string_types):
+            if strict:
+                raise ModelError("%s '%s' of %s does not name a number" % (what, value, owner))
+            return
+        if not low <= number <= high:
+            raise ModelError("%s '%s' of %s out of %s" % (what, value, owner, range_name))
 
     for node in nodes:
-        if isinstance(node, Enum):
+        if isinstance(node, Constant):
+            if strict:
+                check("value", "constant " + node.name, node.value, -(1 << 63), (1 << 64) - 1, "64-bit range")
+        elif isinstance(node, Enum):
             for member in node.members:
                 check("enumerator value", node.name, member.value)
         elif isinstance(node, Union):
@@ -839,5 +849,6 @@ class ModelParser(object):
             for node in nodes:
                 if isinstance(node, Include) and node.name.split("/")[-1] == own:
                     raise ModelError("file '%s' includes another file of its own name" % own)
-        nodes, _ = evaluate_model(nodes, self.emit.warn)
+        nodes, constants = evaluate_model(nodes, self.emit.warn)
+        validate_values(nodes, constants, strict=True)
         return nodes
